@@ -243,6 +243,12 @@ def execute(scn, keep_log=False, hook=None):
         return any(b0 < b and b1 > a for (b0, b1) in busy)
 
     base_slack = slack
+    n_removed = sum(len(v) for v in removed.values())
+    if len(regs) > 400 or n_removed > 400:
+        # far more registrations / removals than the history contains: the one-shot timers that carry the history's operations (or the
+        # scripted callbacks) were called over and over; the detailed attribution below would take for ever and add nothing
+        viol.append({'clause': 'oneshot-repeated', 'rank': 3, 'msg': 'the one-shot timers carrying the operations of the history were called again and again: %d registrations, %d removals performed for %d operations' % (len(regs), n_removed, len(scn['ops']))})
+        regs = []
     for k, r in enumerate(regs):
         cb, t_reg, delta = r['cb'], r['t_reg'], r['delta']
         # a registration call that was held inside the library: the deadline was computed somewhere between call and return
